@@ -18,6 +18,27 @@ Theorem C05_source_parameters : forall T rho e c, compile T rho e = Some c ->
 Proof. exact compile_params. Qed.
 Print Assumptions C05_source_parameters.
 
+(* Admission of a monad: the operand of Negate is unwrapped with `type(arg) is list`, so a monad applied directly to
+   a conditional -:[c;t;e] (a KGCond is a list subclass and IS the operand) is refused and the interpreter runs.
+   Closed by the regenerated flag (compiler half of the defect repaired in 9f7189e). *)
+Theorem C05_monad_of_conditional_not_compiled : forall T rho op c,
+  T = np_tables \/ T = torch_tables -> compile T rho (EMonadCond op c) = None.
+Proof.
+  intros T rho op c [-> | ->]; unfold compile;
+    [rewrite (monad_of_conditional_refused np_tables rho op c [] (eq_refl : unwrap_exact np_tables = true))
+    | rewrite (monad_of_conditional_refused torch_tables rho op c [] (eq_refl : unwrap_exact torch_tables = true))];
+    reflexivity.
+Qed.
+Print Assumptions C05_monad_of_conditional_not_compiled.
+
+(* with `isinstance(arg, list)` the CONDITION is compiled as the operand: -:[a>3;b;c] becomes -(a>3) *)
+Theorem C05_monad_of_conditional_refuted_with_isinstance :
+  exists c v, compile (with_isinstance_unwrap np_tables) (env1 "a" (VS false (NI 5)))
+                      (EMonadCond "-" (EDyad ">" (ESym "a") (ELitI 3))) = Some c /\
+              run_compiled (with_isinstance_unwrap np_tables) true c (env1 "a" (VS false (NI 5))) = Ok v /\
+              v = VS false (NI (-1)).
+Proof. eexists. eexists. repeat split; vm_compute; reflexivity. Qed.
+
 (* T5.equiv — the compiled function, compiled under ANY earlier bindings rho0 and run under the
    current bindings rho (types are not re-read by the compiler: the compilation is memoised on the
    syntax tree), returns what the tree-walking interpreter returns, in structure, elements and
